@@ -15,7 +15,9 @@
  *
  * Asserted at every open, on every path through the prefix (first open, the
  * blocksize-probing opens of try_open_fs, backup-superblock retries, the
- * restart): E2F_OPT_READONLY (-n) => no EXT2_FLAG_RW and no EXT2_FLAG_EXCLUSIVE;
+ * restart); C20: the -b probes of try_open_fs walk every block size 1024..65536
+ * in order and a hit at B (PROBE_K queries) is followed by the real open with B;
+ * E2F_OPT_READONLY (-n) => no EXT2_FLAG_RW and no EXT2_FLAG_EXCLUSIVE;
  * control: without READONLY the open is RW.  main() never returns from the
  * prefix except through fatal_error()/exit().
  */
@@ -110,6 +112,8 @@ io_manager undo_io_manager = &vf_undo_mgr;
 static char vf_name[2] = "d", vf_prog[2] = "e", vf_undo[2] = "u";
 
 static int vf_nopens, vf_nopens_rw, vf_nopens_excl, vf_ended;
+static int vf_after_probe, vf_nprobes, vf_probe_hits;
+static unsigned int vf_probe_expect = EXT2_MIN_BLOCK_SIZE;
 static io_manager vf_undo_backing;
 static int vf_nundo_setup;
 
@@ -126,9 +130,15 @@ static errcode_t PRS(int argc, char *argv[], e2fsck_t *ret_ctx)
 	if (o & E2F_OPT_NO)
 		ASSUME(!(o & (E2F_OPT_COMPRESS_DIRS | E2F_OPT_CHECKBLOCKS | E2F_OPT_WRITECHECK | E2F_OPT_DISCARD)));
 	vf_ctx.options = o;
+#ifdef PROBE_K	/* the probing scenario, with constants so that the stub's probe/real-open distinction stays concrete: -b 32768 without -B */
+	vf_ctx.flags = E2F_FLAG_SB_SPECIFIED;
+	vf_ctx.use_superblock = 32768;
+	vf_ctx.blocksize = 0;
+#else
 	vf_ctx.flags = IN.ctx_flags & E2F_FLAG_SB_SPECIFIED;	/* the only ctx->flags bit PRS can set */
 	vf_ctx.use_superblock = (IN.ctx_flags & E2F_FLAG_SB_SPECIFIED) ? IN.use_superblock : 0;
 	vf_ctx.blocksize = IN.blocksize;
+#endif
 	vf_ctx.interactive = IN.interactive;
 	vf_ctx.program_name = vf_prog;
 	vf_ctx.filesystem_name = vf_name;
@@ -146,12 +156,41 @@ static errcode_t PRS(int argc, char *argv[], e2fsck_t *ret_ctx)
 errcode_t ext2fs_open2(const char *name, const char *io_options, int flags, int superblock,
 		       unsigned int block_size, io_manager manager, ext2_filsys *ret_fs)
 {
-	(void) name; (void) io_options; (void) superblock; (void) block_size;
+	int is_probe;
+	(void) name; (void) io_options;
 	vf_nopens++;
-	/* C12: which io manager is handed the device.  Every open fails here, so try_open_fs() never gets past its block-size probes
-	 * (plain unix manager, by design) while ctx->superblock is set without ctx->blocksize; every other call is the real open */
-	if (vf_ctx.superblock && !vf_ctx.blocksize)
+	/* try_open_fs() probes the block size of a -b superblock given without -B with throw-away opens on the plain unix manager.
+	 * Every real open fails here (ERR); a probe fails too unless its block size is the query's PROBE_K one (1024 << PROBE_K),
+	 * in which case the NEXT call is the real open that try_open_fs makes with the block size it found. */
+	is_probe = vf_ctx.superblock && !vf_ctx.blocksize && !vf_after_probe;
+	if (is_probe) {
 		PROP(manager == unix_io_manager, "block-size probe of try_open_fs uses the plain unix manager");
+		/* C20: the probes walk EVERY block size EXT2_MIN_BLOCK_SIZE .. EXT2_MAX_BLOCK_SIZE, each once, ascending */
+		PROP(block_size == vf_probe_expect, "block-size probes try 1024, 2048, ..., 65536 in order, none skipped");
+		PROP(superblock == (int) vf_ctx.superblock, "the probe reads the superblock the user named");
+		vf_nprobes++;
+#ifdef PROBE_K
+		if (block_size == (1024u << PROBE_K)) {
+			vf_after_probe = 1;
+			vf_probe_expect = EXT2_MIN_BLOCK_SIZE;
+			vf_probe_hits++;
+			vf_fs.magic = EXT2_ET_MAGIC_EXT2FS_FILSYS;
+			vf_fs.flags = flags | EXT2_FLAG_MASTER_SB_ONLY;
+			vf_fs.super = &vf_sb;
+			*ret_fs = &vf_fs;
+			return 0;
+		}
+#endif
+		vf_probe_expect = (block_size >= EXT2_MAX_BLOCK_SIZE) ? EXT2_MIN_BLOCK_SIZE : block_size * 2;
+	} else if (vf_after_probe) {
+		vf_after_probe = 0;
+#ifdef PROBE_K
+		PROP(block_size == (1024u << PROBE_K) && superblock == (int) vf_ctx.superblock,
+		     "a probe that succeeded at block size B is followed by the real open of that superblock with B");
+#endif
+	}
+	if (is_probe)
+		;
 	else if (vf_ctx.undo_file)
 		PROP(manager == undo_io_manager && vf_undo_backing == unix_io_manager,
 		     "e2fsck -z: every real open (first, backup-superblock retries, restart) goes through the undo io manager");
@@ -185,6 +224,8 @@ errcode_t ext2fs_close_free(ext2_filsys *fs) { *fs = 0; return 0; }
 static void vf_end(void)
 {
 	vf_ended = 1;
+	PROP(vf_probe_expect == EXT2_MIN_BLOCK_SIZE && !vf_after_probe,
+	     "no block-size probe sequence is cut short: it ends with a hit or after 65536 was tried");
 	if (!IN.prs_fails && !IN.version_only && (vf_ctx.options & E2F_OPT_READONLY))
 		PROP(vf_nopens_rw == 0 && vf_nopens_excl == 0, "e2fsck -n: the whole prefix made no read/write or exclusive open");
 	VF_END();
